@@ -23,7 +23,8 @@ class C08(SchedCheck):
     technique = ("Coq proof (permutation invariant over operation histories for 11 module models + drain termination) "
                  "+ differential run of the installed PaRSEC scheduler modules against the extracted model")
     rule = ("per module and stream count (quick: 1, 2|3, 4|8 rotating with the seed; thorough: 1,2,3,4,5,8,16): random histories of schedule / schedule_vp / select / get_next_task / "
-            "drain with rings of 1..16 (occasionally up to 64) tasks, priorities in a tiny range, distances 0..5, "
+            "drain with rings of 1..16 (occasionally up to 64) tasks (ltq also: rings of 7..40 tasks sharing their input, "
+            "i.e. one heap, distinct priorities, drained by the owning stream), priorities in a tiny range, distances 0..5, "
             "foreign-thread schedules, ending with a drain; non-trivial = at least one schedule; distinct = case text")
     trusted = ("harness replicates the 6-line static inline __parsec_get_next_task; rand() interposed by the harness; "
                "tasks are bare parsec_task_t with a dummy task class (one flow) and taskpool",)
@@ -51,12 +52,41 @@ class C08(SchedCheck):
                     big = (mod in HB) and k % 4 == 3
                     out.append(self.gen_history(r, mod, n, nops, vp_ops=(k % 2 == 0), maxring=16,
                                                 dist_hi=r.pick([3, 3, 5]), big=big))
+        # ltq: rings whose tasks share their input are grouped into ONE heap; heaps of 7..40 tasks with distinct
+        # priorities, drained by the owning stream (heap_remove: last leaf to the top, sinking several levels)
+        if not ONLY or "ltq" in ONLY:
+            for k in range(12 if quick else 120):
+                out.append(self.heap_history(r, (1, 1, 2, 3)[k % 4]))
         # flush_private of a task retained from a ring of three (finding flush-stale-ring); last in their groups.
         # (ap ip rnd spq hang and ltq crashes on the same input: not run every time, see search_cases)
         for mod in ("gd", "lfq", "ll", "pbq"):
             if self.FLUSH_STALE_CASES and (not ONLY or mod in ONLY):
                 out.append("%s 2 | V 1 0 0:5:0:0:7 1:3:0:0:3 2:4:0:0:5 | F 1 | D" % mod)
         return out
+
+    def heap_history(self, r, n):
+        nextid = [0]
+        ops = []
+        owners = []
+        for _ in range(r.pick([1, 1, 2])):
+            size = r.range(7, 40)
+            prios = r.shuffle(range(size)) if r.chance(3, 4) else [r.range(0, 9) for _ in range(size)]
+            es = r.below(n)
+            tag = r.range(0, 2)
+            ring = []
+            for p in prios:
+                ring.append({"id": nextid[0], "prio": p * r.pick([1, 1, 7]), "tag": tag, "hi": 0, "rnd": 0})
+                nextid[0] += 1
+            ops.append(("S", es, 0, ring))
+            owners.append((es, size))
+            if r.chance(1, 2):
+                for _ in range(r.range(1, size)):
+                    ops.append(("L", es))
+        for es, size in owners:
+            for _ in range(size if n > 1 else r.range(0, 3)):
+                ops.append(("L", es))
+        ops.append(("D",))
+        return fmt_case("ltq", n, ops)
 
     def search_cases(self):
         r = self.rng.fork()
